@@ -265,6 +265,30 @@ fn run_case(lines: &[Line], compress: bool) -> Result<(String, bool), String> {
     Ok((format!("({} :: nil, {}, {})", fcases.join(" :: "), cps(&expected), cps(&extracted)), astral))
 }
 
+/// maximal runs (start, length >= 100) of consecutive mapped BMP code points inside letter blocks
+fn long_runs(f: usize) -> Vec<(u32, u32)> {
+    let d = std::fs::read(FONTS[f].1).expect("font file");
+    let s = Sfnt::parse(&d).expect("font");
+    let m = s.cmap().expect("cmap");
+    let ok = |c: u32| m.contains_key(&c) && ((0xAE..0x250).contains(&c) || (0x388..0x3CF).contains(&c) || (0x400..0x530).contains(&c) || (0x1E00..0x1F00).contains(&c));
+    let mut v = vec![];
+    let mut c = 0xAEu32;
+    while c < 0x1F00 {
+        if ok(c) {
+            let st = c;
+            while ok(c) {
+                c += 1;
+            }
+            if c - st >= 100 {
+                v.push((st, c - st));
+            }
+        } else {
+            c += 1;
+        }
+    }
+    v
+}
+
 fn repertoire(f: usize) -> (Vec<u32>, Vec<u32>) {
     let d = std::fs::read(FONTS[f].1).expect("font file");
     let s = Sfnt::parse(&d).expect("font");
@@ -299,6 +323,26 @@ pub fn run(ctx: &Ctx) {
         let mut r = Rng::new(ctx.seed ^ 0xC13);
         let nf = if ctx.thorough() { 4 } else { 3 };
         let reps: Vec<(Vec<u32>, Vec<u32>)> = (0..nf).map(repertoire).collect();
+        // long consecutive runs: one ToUnicode bfrange holds at most 100 codes, the next range must pick up the rest
+        let runs: Vec<Vec<(u32, u32)>> = (0..nf).map(long_runs).collect();
+        let lens: &[u32] = if ctx.thorough() { &[100, 101, 102, 150, 199, 200, 201, 256, 300, 100, 101, 256] } else { &[100, 101, 150, 201, 256, 300] };
+        for (i, &want) in lens.iter().enumerate() {
+            let f = (0..nf).map(|d| (i + d) % nf).find(|&f| !runs[f].is_empty());
+            let Some(f) = f else { continue };
+            let fit: Vec<(u32, u32)> = runs[f].iter().copied().filter(|r| r.1 >= want).collect();
+            let (st, len) = if fit.is_empty() { *runs[f].iter().max_by_key(|r| r.1).unwrap() } else { *r.pick(&fit) };
+            let l = want.min(len);
+            let start = st + r.below((len - l + 1) as u64) as u32;
+            let mut cps: Vec<u32> = (start..start + l).collect();
+            if r.chance(1, 2) {
+                for i in (1..cps.len()).rev() {
+                    let j = r.below(i as u64 + 1) as usize;
+                    cps.swap(i, j);
+                }
+            }
+            let lines: Vec<Line> = cps.chunks(50).map(|c| Line { font: f, text: c.to_vec() }).collect();
+            emit(&mut out, &lines, r.chance(1, 2), "consecutive_run");
+        }
         let n = if ctx.thorough() { 260 } else { 60 };
         for k in 0..n {
             let two = r.chance(1, 3);
